@@ -76,6 +76,27 @@ CHECKS['C20'] = ('model_checking',
   'devices are simulated host devices; early close() is outside the statement and only order / '
   'each-once / error position are asserted there.', '§4 C20')
 
+CHECKS['C11'] = ('fault_enumeration',
+  'exhaustive crash-point enumeration over recorded file-system operations of every save '
+  'history + preemption-bounded schedule enumeration of the AsyncManager worker',
+  'Every history of save_checkpoint calls up to the tier length (steps x keep x '
+  'keep_every_n_steps x overwrite x prefix, both back-ends, plus a family of negative / float / '
+  'exponent steps) runs on the real code in a scratch directory. After each completed save the '
+  'directory, available_steps, latest_checkpoint and restore_checkpoint(step) are compared with a '
+  'reference model (set of committed steps + the retention policy in ten lines). The last save '
+  'of each history runs under a recorder at the flax.io / os seam; EVERY post-crash state it can '
+  'leave (before each operation, torn prefixes of the file being written, every prefix of each '
+  'recursive delete) is materialised and checked: latest is a complete committed checkpoint and '
+  'restores to its tree, promised checkpoints are still there, retrying the step and saving a '
+  'later step succeed and re-establish the policy. AsyncManager saves are explored under the '
+  'cooperative scheduler (all interleavings of the worker with the caller up to the preemption '
+  'bound, a scheduling point at every file-system operation) and must leave the synchronous '
+  'run\'s directory while a concurrent reader only ever sees complete checkpoints.',
+  'Crash = process kill (no power-loss reordering); tensorstore writes inside Orbax\'s temporary '
+  'directory are observed only at the os-level operations Orbax issues; local file system only. '
+  'Two crash windows of the Orbax back-end under overwrite=True are genuine and listed in '
+  'known_findings.json.', '§4 C11')
+
 NOT_APPLICABLE = {}
 
 
